@@ -7,7 +7,7 @@ from harness.common import ob, twin
 
 META = {
     "level": "model_checking",
-    "explanation": "bounded schedule exploration by symbolic execution (CrossHair/z3): the real ServicesManager."
+    "explanation": "bounded schedule exploration by symbolic execution (CrossHair/z3): the real connector.handler / ServicesManager."
                    "create_service / clean_service_when_close_connection and the real Service objects run on the "
                    "cooperative asyncio runtime over the in-memory file system; the harness owns the external events "
                    "(connection i opens / delivers its next scripted request / closes; the k-th pending cleanup "
@@ -25,7 +25,7 @@ META = {
               "fake websockets; file manager over env/memfs.py; loggers silenced"],
     "assumptions": ["asyncio runs a task until its next await; the websockets library closes a connection whose "
                     "handler ended"],
-    "functions": ["frontend.server.services.services_manager.ServicesManager.{create_service,"
+    "functions": ["frontend.server.connector.handler", "frontend.server.services.services_manager.ServicesManager.{create_service,"
                   "clean_service_when_close_connection}", "frontend.server.services.service.Service.*",
                   "frontend.server.services.comm.send_message"],
 }
@@ -70,7 +70,7 @@ def _enabled(conns, rt):
 def h_sched(P, S):
     SV, SM = FE.FIX["mods"][0], FE.FIX["mods"][1]
     fs, rt = FE.world()
-    mgr = SM.ServicesManager()
+    FE.reset_server()
     # optional prefix: the service already has its configuration (and index)
     pre = P.get("pre_state", 0)
     if pre >= 1:
@@ -100,7 +100,7 @@ def h_sched(P, S):
         if kind == "open":
             who.ws = aio.FakeWS(who.name)
             who.opened_at = step
-            who.task = rt.create_task(mgr.create_service(FE.SID, who.ws))
+            who.task = FE.connect(rt, who.ws, FE.SID)
             ws = who.ws
             who.task.add_done_callback(lambda _t, ws=ws: ws.close_now())   # handler ended -> library closes
             # the known "two waiters" pattern: this connection arrives while another open connection is still
@@ -186,7 +186,7 @@ def h_sched(P, S):
     if P.get("twin"):
         return False
     probe = aio.FakeWS("probe")
-    rt.create_task(mgr.create_service(FE.SID, probe))
+    FE.connect(rt, probe, FE.SID)
     rt.run_until_idle()
     fr = FE.frames(probe)
     if not fr or fr[0][0] != "init":
